@@ -306,7 +306,7 @@ def run_check(engine_name: str, tier: str, runs_override: Optional[int] = None,
             proc = subprocess.run(
                 [PYTHON, os.path.join(VERIF, "bin", "check.py"), engine_name, "--tier", tier,
                  "--digests", ",".join(str(r) for r in sample_runs)],
-                env=env, capture_output=True, text=True, timeout=600)
+                env=env, capture_output=True, text=True, timeout=1800)
             line = [l for l in proc.stdout.splitlines() if l.startswith("DIGESTS ")]
             if proc.returncode != 0 or not line:
                 total["harness_errors"].append(
@@ -363,7 +363,7 @@ def run_check(engine_name: str, tier: str, runs_override: Optional[int] = None,
         try:
             proc = subprocess.run(
                 [PYTHON, os.path.join(VERIF, "bin", "check.py"), engine_name, "--replay", path],
-                capture_output=True, text=True, timeout=600, env=dict(os.environ))
+                capture_output=True, text=True, timeout=1800, env=dict(os.environ))
             confirmed = proc.returncode == 1 and f"VIOLATION property={prop}" in proc.stdout
         except subprocess.TimeoutExpired:
             pass
